@@ -88,18 +88,16 @@ func LookForRanges(conditions []query.Condition) (ranges QueryRanges, indexes []
 
 			switch c.Op {
 			case query.OpGreater:
-				r.LowerBound = c.Operand
+				r.tightenLowerBound(c.Operand, false)
 
 			case query.OpGreaterEqual:
-				r.IncludeLowerBound = true
-				r.LowerBound = c.Operand
+				r.tightenLowerBound(c.Operand, true)
 
 			case query.OpLess:
-				r.UpperBound = c.Operand
+				r.tightenUpperBound(c.Operand, false)
 
 			case query.OpLessEqual:
-				r.IncludeUpperBound = true
-				r.UpperBound = c.Operand
+				r.tightenUpperBound(c.Operand, true)
 			}
 
 			ranges[c.CompositeKey] = r
@@ -108,6 +106,73 @@ func LookForRanges(conditions []query.Condition) (ranges QueryRanges, indexes []
 	}
 
 	return ranges, indexes
+}
+
+// tightenLowerBound records the lower bound (bound, include) unless the range
+// already has a lower bound that is at least as strict, so that with several
+// lower bounds on the same key (e.g. "a > 5 AND a >= 3") all of them hold.
+func (qr *QueryRange) tightenLowerBound(bound interface{}, include bool) {
+	if qr.LowerBound != nil {
+		if cmp, ok := compareBounds(bound, qr.LowerBound); ok && (cmp < 0 || (cmp == 0 && (include || !qr.IncludeLowerBound))) {
+			return
+		}
+	}
+
+	qr.LowerBound = bound
+	qr.IncludeLowerBound = include
+}
+
+// tightenUpperBound is the counterpart of tightenLowerBound for upper bounds.
+func (qr *QueryRange) tightenUpperBound(bound interface{}, include bool) {
+	if qr.UpperBound != nil {
+		if cmp, ok := compareBounds(bound, qr.UpperBound); ok && (cmp > 0 || (cmp == 0 && (include || !qr.IncludeUpperBound))) {
+			return
+		}
+	}
+
+	qr.UpperBound = bound
+	qr.IncludeUpperBound = include
+}
+
+// compareBounds compares two query operands of the same kind. ok is false if
+// they cannot be compared.
+func compareBounds(a, b interface{}) (cmp int, ok bool) {
+	switch x := a.(type) {
+	case int64:
+		if y, isInt := b.(int64); isInt {
+			switch {
+			case x < y:
+				return -1, true
+			case x > y:
+				return 1, true
+			}
+			return 0, true
+		}
+
+	case float64:
+		if y, isFloat := b.(float64); isFloat {
+			switch {
+			case x < y:
+				return -1, true
+			case x > y:
+				return 1, true
+			}
+			return 0, true
+		}
+
+	case time.Time:
+		if y, isTime := b.(time.Time); isTime {
+			switch {
+			case x.Before(y):
+				return -1, true
+			case x.After(y):
+				return 1, true
+			}
+			return 0, true
+		}
+	}
+
+	return 0, false
 }
 
 // IsRangeOperation returns a boolean signifying if a query Operator is a range
